@@ -340,6 +340,7 @@ fn run_variant(cx: &mut Ctx, origin: &str, vname: &str, src: &str) {
     };
     w.expr(expr);
     let w_ext_root = w.ext(expr.span.end().0);
+    let src_tokens = w.tokens_in(1, len + 2);
     let inf = w.info;
     let mut constructs = inf.constructs.clone();
     constructs.sort();
@@ -373,7 +374,8 @@ fn run_variant(cx: &mut Ctx, origin: &str, vname: &str, src: &str) {
             // every position-search based query fails the same way here
             "panic:completion:empty-tuple-pattern".to_string()
         } else if class == "unimplemented" && inf.annotated > 0 {
-            format!("panic:completion:{}:annotated-expr", query)
+            // `Expr::Annotated(..) => unimplemented!()` (lib.rs:723), the same for every query
+            "panic:completion:annotated-expr".to_string()
         } else {
             format!("panic:completion:{}:{}", query, class)
         };
@@ -512,7 +514,17 @@ fn run_variant(cx: &mut Ctx, origin: &str, vname: &str, src: &str) {
             .iter()
             .filter(|(a, b, _, _)| *a <= off && off <= *b)
             .collect();
-        if covering.len() == 1 {
+        // at the first / last position of the identifier the neighbouring byte must be
+        // whitespace (or the text's edge): otherwise the cursor is just as much on the neighbour
+        let sb = src.as_bytes();
+        let ws_at = |i: i64| i < 0 || i as usize >= sb.len() || sb[i as usize].is_ascii_whitespace();
+        let judged = covering.len() == 1 && {
+            let (a, b, _, _) = covering[0];
+            (*a < off && off < *b)
+                || (off == *a && off < *b && ws_at(off as i64 - 2))
+                || (off == *b && *a < off && ws_at(off as i64 - 1))
+        };
+        if judged {
             let (a, b, typ, what) = covering[0];
             out.count("ident-offsets");
             match &found_type {
@@ -576,6 +588,12 @@ fn run_variant(cx: &mut Ctx, origin: &str, vname: &str, src: &str) {
                     let ok = inf.in_scope(n, soff);
                     if !ok {
                         let class = inf.leak_class(n, soff);
+                        if class == "unbound-name" && (n.is_empty() || src_tokens.iter().any(|t| t == n)) {
+                            // no binder of that name exists, so it was not taken from the scope
+                            // stack: a field name offered next to a projection; not judged
+                            out.count("field-name-suggestions(not judged)");
+                            continue;
+                        }
                         out.oracle_fail(
                             &format!("suggest-out-of-scope:{}", class),
                             &format!(
@@ -629,6 +647,11 @@ const CORPUS: &[&str] = &[
     "let () = () in 1",
     "match () with\n| () -> 1",
     "\\x -> match x with\n    | (a, ()) -> a",
+    // D13: the checker wraps an expression in `Expr::Annotated`
+    "[2, \\g -> g, let x = True in 561]",
+    // cursor on a keyword before/after a binding construct
+    "let a = 1 in let b = 2 in b",
+    "if True then let y = 1 in y else 2",
     // positions between tokens / end of input
     "let x = 1 in  x   ",
     "f (\\x -> x)  y",
